@@ -1,0 +1,6 @@
+//go:build !verif
+
+package snapshot
+
+// verifCrashPoint is a no-op unless built with -tags verif (see verif_export.go).
+func verifCrashPoint(string) {}
